@@ -506,8 +506,9 @@ func (r *BucketRing) EmitFlowCollections(sink Sink) {
 		endIndex = startIndex
 		startIndex = r.indexSubtract(startIndex, r.bucketsToAggregate)
 
-		// Terminate the loop if we've gone through all the buckets.
-		if r.indexBetween(startIndex, endIndex, r.headIndex) {
+		// Terminate the loop if we've gone through all the buckets. The next window must not contain
+		// the head bucket: check for it landing exactly on the window's start as well as strictly inside.
+		if startIndex == r.headIndex || r.indexBetween(startIndex, endIndex, r.headIndex) {
 			break
 		}
 	}
